@@ -262,11 +262,16 @@ func main() {
 		for _, n := range []uint64{1, 4, 9, 14, 19, 40, 49, 90, 99, 400, 444, 499, 900, 949, 999, 1994, 2024, 3888, 3999, 4000, 4999, 5555, 8, 80, 800, 666} {
 			bases = append(bases, oracle.RomanText(n, 0), oracle.RomanText(n, 127), oracle.RomanText(n, 63))
 		}
-		r.Phase(fmt.Sprintf("1-deviation mutants (substitute/insert all 256 byte values, delete) of %d valid numerals", len(bases)), "complete for 1 deviation", func() {
+		r.Phase(fmt.Sprintf("special words (null, nil, true, NaN, {}, ...) and 1-deviation mutants (substitute/insert all 256 byte values, delete) of %d valid numerals", len(bases)), "complete for 1 deviation", func() {
 			r.Parallel(int64(len(bases)), 1, func(w *mc.W, i int64) {
 				mc.Mutations1([]byte(bases[i]), mc.AllBytes, func(m []byte) { one(w, m) })
 				mc.MutationsTok([]byte(bases[i]), mc.Lookalikes, func(m []byte) { one(w, m) })
 				one(w, []byte(bases[i]+"\n"))
+				if i == 0 {
+					for _, sw := range mc.SpecialWords {
+						one(w, []byte(sw))
+					}
+				}
 			})
 		})
 		r.Sample("mutant", arg{In: "MCMXCſ", Rule: 0})
